@@ -75,7 +75,9 @@ def run(chk):
         I.overrides[NJR] = stub
     r = analyse(chk, PSEUDO, std_args(positive=True), atoms=(R, DT, T), setup=setup2)
     c = "eqsig/sdof.py:pseudo_response_spectra"
-    pre = [e for e in r.events("lib-call") if e.name == "numpy.where" and len(e.args) == 3 and e.fn == PSEUDO]
+    # the PGA substitution np.where(periods < 6 dt, PGA, S_a), wherever it is executed (the entry itself, a helper, a method of a
+    # carrier object): recognised by its condition deriving from the periods
+    pre = [e for e in r.events("lib-call") if e.name == "numpy.where" and len(e.args) == 3 and _is_cut(e.args[0])]
     sv = item(r.ret, 1)
     expect(chk, "R-PSEUDO", c + ".S_v", sv, deg={T: -1, R: 1}, loc=r.fi.loc(), atoms=(R, T))
     if len(pre) == 1:
@@ -89,19 +91,18 @@ def run(chk):
     for q in (PSEUDO, TRUE):
         r = analyse(chk, q, std_args(), atoms=(R, DT, T))
         c = "%s:%s" % (r.fi.module.relpath, r.fi.name)
-        cmps = [e for e in r.events("compare", q) if ("p:periods" in e.left.tags) != ("p:periods" in e.right.tags)
+        cmps = [e for e in r.events("compare") if ("p:periods" in e.left.tags) != ("p:periods" in e.right.tags)
                 and ("p:dt" in (e.left.tags | e.right.tags))]
         if len(cmps) != 1:
             chk.ob("R-CUT", c, "one periods-against-dt comparison", False, derived="%d found" % len(cmps), loc=r.fi.loc(),
                    inconclusive=len(cmps) == 0)
             continue
         e = cmps[0]
-        strict, coef, why = threshold_form(r.fi, e.node, small="periods", big="dt")
+        strict, coef, why = threshold_form(chk.P.functions.get(e.fn, r.fi), e.node, small="periods", big="dt")
         masks[q] = (strict, coef)
         chk.ob("R-CUT", c + "{mask}", "periods < 6 * dt (strict)", strict is True and coef == 6,
                derived=why, loc=e.loc, stmt=e.stmt)
-        wh = [x for x in r.events("lib-call", q) if x.name == "numpy.where" and len(x.args) == 3 and
-              "p:periods" in x.args[0].tags]
+        wh = [x for x in r.events("lib-call") if x.name == "numpy.where" and len(x.args) == 3 and _is_cut(x.args[0])]
         if len(wh) != 1:
             chk.ob("R-CUT", c + "{substitution}", "one np.where substitution", False, derived="%d found" % len(wh), loc=r.fi.loc())
             continue
@@ -112,7 +113,7 @@ def run(chk):
                r.ret.items is not None and wh[0].args[2].tags <= r.ret.items[2].tags and "absmax" in r.ret.items[2].tags
                and "p:motion" in r.ret.items[2].tags and "p:motion" in orig.tags,
                derived="result tags %s" % sorted(t for t in r.ret.items[2].tags if t.startswith("p:")), loc=wh[0].loc)
-        site = "a@%s:%s:%s" % (q, wh[0].node.lineno, wh[0].node.col_offset)
+        site = "a@%s:%s:%s" % (wh[0].fn, wh[0].node.lineno, wh[0].node.col_offset)      # the allocation site of the np.where, in whichever function it runs
         for k, nm in ((0, "S_d"), (1, "S_v")):
             chk.ob("R-CUT", c + "{not-substituted}.%s" % nm, "%s is not the result of the substitution" % nm,
                    site not in r.ret.items[k].origin, derived="origin %s" % sorted(r.ret.items[k].origin), loc=wh[0].loc)
@@ -208,6 +209,11 @@ def _read(chk, prop, setup):
     return v, I, m
 
 
+def _is_cut(cond):
+    """the mask of the short-period cut: derives from the periods and the time step, not from the record"""
+    return "p:periods" in cond.tags and "p:dt" in cond.tags and "p:motion" not in cond.tags and "p:acc" not in cond.tags
+
+
 def threshold_form(fi, cmp_node, small, big):
     """Normalise `L op R` to  small < c * big ; returns (strict, c, description)."""
     norm = straightline_env(fi.node.body, Normaliser())
@@ -222,7 +228,7 @@ def threshold_form(fi, cmp_node, small, big):
         return None, None, "comparison %s between %s and %s" % (op, L.canon(), Rr.canon())
     q = Rr * L.inverse()          # small-side < big-side  <=>  1 < R/L
     (m, c), = q.t.items()
-    md = dict(m)
+    md = {k.split(".")[-1]: v for k, v in dict(m).items()}       # self.periods / peaks.dt: the quantity is known by its last name
     if md == {big: Fraction(1), small: Fraction(-1)}:
         return op == "Lt", c, "%s %s %s * %s" % (small, "<" if op == "Lt" else "<=", c, big)
     return None, None, "normal form %s (expected %s against %s)" % (q.canon(), small, big)
